@@ -116,6 +116,7 @@ class Daemon:
         self.args = list(args)
         self.proc = None
         self.preexec = None
+        self.as_uid = None      # run the daemon as this (unprivileged) user, see live_asuser.py
         self.out_path = os.path.join(self.dir, 'daemon.out')
 
     def header(self, check_delay=0.5, extra=''):
@@ -128,6 +129,8 @@ class Daemon:
         env['PYTHONPATH'] = repo_dir() + os.pathsep + env.get('PYTHONPATH', '')
         env['PYTHONDONTWRITEBYTECODE'] = '1'
         cmd = [PY, '-m', 'circus.circusd', self.ini_path] + [a.replace('@DIR@', self.dir) for a in self.args]
+        if self.as_uid is not None:
+            cmd = [PY, os.path.join(VERIF, 'vlib', 'live_asuser.py'), str(self.as_uid)] + cmd[3:]
         if self.strace:
             cmd = ['strace', '-D', '-ttt', '-o', self.strace_log, '-e', 'trace=' + STRACE_CALLS, '-e', 'signal=all'] + cmd
         self.out = open(self.out_path, 'wb')
